@@ -172,6 +172,12 @@ def cases(draw, isa, archs):
             if same_roots:
                 load["disp"] = load["disp"] - diff + (0 if want_equal else draw(st.sampled_from([8, -8, 4])))
     lines.append(dict(load, k="load", text=("movq %s, %%rdx" if isa == "x86" else "ldr x3, %s") % render_addr(isa, load)))
+    if load["mode"] == "plain" and draw(st.integers(0, 2)) == 0:
+        # a second (and third) load of the same address right behind the first: same dependency, same weight
+        for r_ in (["%r15", "%rbp"] if isa == "x86" else ["x15", "x16"])[:draw(st.integers(1, 2))]:
+            a_ = render_addr(isa, load)
+            lines.append(dict(load, k="load2", text=("movq " + a_ + ", " + r_) if isa == "x86" else
+                              ("ldr " + r_ + ", " + a_)))
     for _ in range(draw(st.integers(0, 2))):
         lines.append({"k": "nop", "text": draw(st.sampled_from(unrelated))})
     return {"isa": isa, "arch": arch, "lines": lines, "first_line": draw(st.sampled_from([0, 0, 7]))}
@@ -324,6 +330,22 @@ def check_case(case):
             if has and wb_store and abs(got[(sidx, lidx)] - pidx) > 1e-9 and abs(w_mem - pidx) > 1e-9:
                 raise Violation("spurious:" + tag, "store->load forwarding edge between different locations",
                                 got[(sidx, lidx)], pidx)
+        # further loads of the same address directly behind the load: same edge, same weight
+        for l2 in range(lidx + 1, len(case["lines"])):
+            if case["lines"][l2]["k"] != "load2":
+                break
+            has2 = (sidx, l2) in got
+            if want and not has2:
+                raise Violation("missed:" + tag + ":load%d" % (l2 - lidx + 1), "a further load of the location just "
+                                "stored to does not depend on the store (%s ... %s)" % (
+                                    st_["text"], case["lines"][l2]["text"]), sorted(got), [sidx, l2])
+            if not want and has2 and not wb_store:
+                raise Violation("spurious:" + tag + ":load%d" % (l2 - lidx + 1), "a further load depends on a store "
+                                "to a different location", [sidx, l2], None)
+            if want and has2 and abs(got[(sidx, l2)] - got[(sidx, lidx)]) > 1e-9:
+                raise Violation("weight:" + tag + ":load%d" % (l2 - lidx + 1), "store->load edge weight differs "
+                                "between two loads of the same location", got[(sidx, l2)], got[(sidx, lidx)])
+            cl.append("several-loads")
         same, diff = symbolic(isa, case["lines"], sidx, lidx)
         if want and (st_["disp"] != ld["disp"] or "copy" in kinds):
             nt = True
